@@ -41,7 +41,9 @@ import Fbr.Lemmas.XportFuse2
 import Fbr.Lemmas.XportChain
 import Fbr.Lemmas.XportStart
 import Fbr.Lemmas.XportCThm
+import Fbr.Lemmas.XportCLog
 import Fbr.Lemmas.XportFuseThm
+import Fbr.Lemmas.XportFuseRd
 
 namespace Fbr.Thm.C04
 open Fbr.Xport
@@ -326,6 +328,33 @@ theorem writes_are_concatenation (st : St) (pre ops : List Op) (h : Start st) (h
           (exec (exec st pre) ops).w.mem.byteAt a = (exec st pre).w.mem.byteAt a) :=
   writes_core pre ops h hnd hr hw i b0 hi hns
 
+/-- **All bytes delivered are request bytes** (global form, splits of every handle allowed).  After
+    ANY operation list — any readers, however split, in any interleaving — the bytes delivered by
+    all reader operations (`deliveredLog`: `delivered` of each operation through the handle it
+    acts on, concatenated in operation order) are exactly the bytes of the ORIGINAL memory at the
+    addresses read, in the order they were read.  With `every_byte_moved_exactly_once` (those
+    addresses, together with what the readers still hold, are a permutation of the readable
+    descriptors' addresses): no request byte is delivered twice, none is invented or altered. -/
+theorem all_delivered_bytes_are_request_bytes (st : St) (ops : List Op) (h : Start st)
+    (hdisj : ∀ a ∈ readable st, a ∉ writable st)
+    (hr : ∀ b ∈ st.readers, WF st.w.mem b.segs) (hw : ∀ b ∈ st.writers, WF st.w.mem b.segs) :
+    deliveredLog st ops = (rdAddrs (exec st ops).w.log).map st.w.mem.byteAt := by
+  have := exec_rdlog ops (start_cinv h hr hw) (start_rinv hdisj)
+  rw [h.1] at this
+  simpa [rdAddrs] using this.symm
+
+/-- **All bytes written hold what was stored** (global form, splits of every handle allowed).  After
+    ANY operation list on non-overlapping writable descriptors, the addresses written, in the order
+    they were written, hold exactly the bytes stored by all writer operations (`placedLog`:
+    `placed` of each operation through the handle it acts on, concatenated in operation order) —
+    no later operation, on any handle, has disturbed an earlier one's bytes. -/
+theorem all_written_bytes_hold_what_was_placed (st : St) (ops : List Op) (h : Start st) (hnd : (writable st).Nodup)
+    (hr : ∀ b ∈ st.readers, WF st.w.mem b.segs) (hw : ∀ b ∈ st.writers, WF st.w.mem b.segs) :
+    (wrAddrs (exec st ops).w.log).map (exec st ops).w.mem.byteAt = placedLog st ops := by
+  have h0 : WL st [] := by
+    unfold WL; rw [h.1]; exact ⟨by simp only [wrAddrs, List.nil_append]; exact hnd, rfl⟩
+  simpa using (exec_wl ops (start_cinv h hr hw) h0).2
+
 /-- **What a writer operation stores is what it reports** (the `n` in `placed`): a successful
     `write` stores the whole buffer and reports its length, a failing one stores nothing; a
     successful `write_vectored` reporting `n` stores the first `n` bytes of the buffers in order;
@@ -445,18 +474,24 @@ theorem fuse_commit_is_concatenation (f : FuseW) (w : World) (other : Option Fus
     any order): every writer keeps `len ≤ cap` — the `Vec` laid over the borrowed buffer never
     outgrows its capacity, so it never reallocates and `capacity - len` never underflows —, stays
     inside the original buffer, the windows of all writers (however split) always PARTITION the
-    original buffer, the capacities add up to its size, every memory write lies inside it, the
+    original buffer, `available_bytes + bytes_written`
+    of every writer is its capacity and the capacities add up to the buffer size, every memory write lies inside it, the
     memory regions keep their sizes, and no virtio-fs writer appears. -/
 theorem fuse_invariant_any_operation_list (st : St) (R base cap : Nat) (ops : List Op) (h : FStart st R base cap) :
-    (∀ f ∈ (exec st ops).fws, f.len ≤ f.cap ∧ f.region = R ∧ base ≤ f.base ∧ f.base + f.cap ≤ base + cap)
+    (∀ f ∈ (exec st ops).fws, f.len ≤ f.cap ∧ f.region = R ∧ base ≤ f.base ∧ f.base + f.cap ≤ base + cap
+        ∧ f.availableBytes + f.bytesWritten = f.cap)
     ∧ (fahead (exec st ops).fws).Perm (segAddrs ⟨R, base, cap⟩)
     ∧ (((exec st ops).fws.map FuseW.cap).sum = cap)
     ∧ (∀ a ∈ wrAddrs (exec st ops).w.log, a ∈ segAddrs ⟨R, base, cap⟩)
     ∧ (∀ x, ((exec st ops).w.mem.get x).length = (st.w.mem.get x).length)
     ∧ (exec st ops).writers = [] := by
   have hi := exec_finv ops (fstart_finv h)
-  refine ⟨hi.each, hi.part, ?_, hi.wrin, exec_flen ops (fstart_finv h), hi.nowr⟩
-  rw [← length_fahead, hi.part.length_eq]; simp
+  refine ⟨?_, hi.part, ?_, hi.wrin, exec_flen ops (fstart_finv h), hi.nowr⟩
+  · intro f hf
+    obtain ⟨h1, h2, h3, h4⟩ := hi.each f hf
+    unfold FuseW.ok at h1
+    exact ⟨h1, h2, h3, h4, by unfold FuseW.availableBytes FuseW.bytesWritten; omega⟩
+  · rw [← length_fahead, hi.part.length_eq]; simp
 
 /-- … and no operation on a writer with `len ≤ cap` inside memory (every writer of every reachable
     table, by the theorem above) ends in the "realloc of borrowed buffer" or the "capacity - len
@@ -470,6 +505,57 @@ theorem fuse_no_operation_reallocates (f : FuseW) (w : World) (hok : f.ok) (hin 
   ⟨fun data => fwrite_benign f w data hok, fun bufs => fwriteVectored_benign f w bufs hok,
    fun src count at_ => fwriteFrom_benign f w src count at_ hok,
    fun src count => fwriteAllFrom_benign f w src count hok hin⟩
+
+/-- **Reads are the request bytes, in order — on the /dev/fuse transport.**  The same statement as
+    `reads_are_request_bytes_in_order` for the `Reader` living next to FuseDevWriters: request
+    buffer(s) inside memory and outside the reply buffer; ANY operation list `pre`, ANY reader
+    handle `i` existing then, ANY further operation list that does not split `i` (all FuseDevWriter
+    operations, splits and commits, and operations on other readers interleaved arbitrarily). -/
+theorem fuse_reads_are_request_bytes_in_order (st : St) (R base cap : Nat) (pre ops : List Op) (h : FStart st R base cap)
+    (hov : ∀ b ∈ st.readers, b.consumed + total b.segs < USIZE)
+    (hr : ∀ b ∈ st.readers, WF st.w.mem b.segs)
+    (hout : ∀ b ∈ st.readers, ∀ a ∈ addrs b.segs, a ∉ segAddrs ⟨R, base, cap⟩)
+    (i : Nat) (b0 : IoBufs) (hi : (exec st pre).readers[i]? = some b0) (hns : ∀ k, Op.rs i k ∉ ops) :
+    ∃ bf, (exec (exec st pre) ops).readers[i]? = some bf
+      ∧ deliveredAll (exec st pre) i ops ++ flat st.w.mem bf.segs = flat st.w.mem b0.segs
+      ∧ bf.consumed = b0.consumed + (deliveredAll (exec st pre) i ops).length
+      ∧ (∀ a ∈ addrs bf.segs, (exec (exec st pre) ops).w.mem.byteAt a = st.w.mem.byteAt a) :=
+  freads_core pre ops h hov hr hout i b0 hi hns
+
+/-- **Overflow fails without writing** on /dev/fuse: a `write`, `write_vectored`, `write_from(_at)` or
+    `write_all_from` asking for more than `capacity - len` (on any writer that may write at all:
+    buffered, or unbuffered and fresh) returns `InvalidData` and leaves the writer, memory, the
+    descriptor, the logs and the scripted file exactly as they were. -/
+theorem fuse_overflow_fails_without_writing (f : FuseW) (w : World) (hok : f.ok) (hmode : f.buffered = true ∨ f.len = 0) :
+    (∀ data : Bytes, f.cap - f.len < data.length →
+        (FuseW.write f w data).res = .error .invalidData ∧ (FuseW.write f w data).f = f ∧ (FuseW.write f w data).w = w)
+    ∧ (∀ bufs : List Bytes, f.cap - f.len < bufs.flatten.length →
+        (FuseW.writeVectored f w bufs).res = .error .invalidData ∧ (FuseW.writeVectored f w bufs).f = f
+          ∧ (FuseW.writeVectored f w bufs).w = w)
+    ∧ (∀ src count at_, f.cap - f.len < count →
+        (FuseW.writeFrom f w src count at_).res = .error .invalidData ∧ (FuseW.writeFrom f w src count at_).f = f
+          ∧ (FuseW.writeFrom f w src count at_).w = w ∧ (FuseW.writeFrom f w src count at_).aux = src)
+    ∧ (∀ src count, f.cap - f.len < count →
+        (FuseW.writeAllFrom f w src count).res = .error .invalidData ∧ (FuseW.writeAllFrom f w src count).f = f
+          ∧ (FuseW.writeAllFrom f w src count).w = w ∧ (FuseW.writeAllFrom f w src count).aux = src) :=
+  fuse_overflow f w hok hmode
+
+/-- An unbuffered (never split) fresh writer sends each write straight to the descriptor as ONE
+    record: `write` the buffer (memory untouched), `write_vectored` the concatenation of the
+    buffers (none when it is empty), `write_from(_at)` reporting `n` exactly the `n` bytes the file
+    delivered. -/
+theorem fuse_unbuffered_write_is_one_record (f : FuseW) (w : World) (hb : f.buffered = false) (hl : f.len = 0)
+    (hin : f.inMem w.mem) :
+    (∀ data : Bytes, data.length ≤ f.cap →
+        (FuseW.write f w data).res = .ok data.length ∧ (FuseW.write f w data).w.fd = w.fd ++ [data]
+          ∧ (FuseW.write f w data).w.mem = w.mem)
+    ∧ (∀ bufs : List Bytes, bufs ≠ [] → bufs.flatten.length ≤ f.cap →
+        (FuseW.writeVectored f w bufs).res = .ok bufs.flatten.length
+          ∧ (FuseW.writeVectored f w bufs).w.fd = (if bufs.flatten.isEmpty then w.fd else w.fd ++ [bufs.flatten])
+          ∧ (FuseW.writeVectored f w bufs).w.mem = w.mem)
+    ∧ (∀ src count at_ n, (FuseW.writeFrom f w src count at_).res = .ok n →
+        (FuseW.writeFrom f w src count at_).w.fd = w.fd ++ [patBytes src.seed (at_.getD src.pos) n]) :=
+  fuse_unbuffered f w hb hl hin
 
 /-- **Buffered appends, any operation list.**  After ANY operation list `pre`, take ANY buffered
     writer `i` (any half of any split) and run ANY further operation list `ops` that does not
@@ -631,9 +717,11 @@ example :
 /-- the fusedev theorems: a start state, and a header/data scenario with interleaved writes — one
     record `header ++ data` at commit, nothing before -/
 example : FStart exampleFuse 2 64 64
+    ∧ (∀ b ∈ exampleFuse.readers, b.consumed + total b.segs < USIZE ∧ WF exampleFuse.w.mem b.segs
+        ∧ ∀ a ∈ addrs b.segs, a ∉ segAddrs ⟨2, 64, 64⟩)
     ∧ (step (exec (step exampleFuse (.fs 0 16)).1 [.fw 1 [1, 2, 3], .fw 0 [8, 9], .rd 0 4, .fw 1 [4], .fw 0 [7]])
         (.fc 0 (some 1))).1.w.fd = [[8, 9, 7, 1, 2, 3, 4]] := by
-  refine ⟨⟨rfl, rfl, by decide +kernel, rfl⟩, by decide +kernel⟩
+  refine ⟨⟨rfl, rfl, by decide +kernel, rfl⟩, by decide +kernel, by decide +kernel⟩
 
 /-- FuseDevWriter: a fresh writer over a 64-byte window split at 16 -/
 example : (FuseW.new 2 64 64).ok ∧ (FuseW.new 2 64 64).len = 0
